@@ -9,7 +9,7 @@ import (
 var disturberKinds = []string{
 	"handler_error", "unknown_service", "unknown_method", "no_slash", "empty_method",
 	"after_shutdown", "cancelled", "expired", "caller_never_reads", "handler_never_reads",
-	"invalid_metadata", "invalid_method", "invalid_header", "invalid_trailer",
+	"invalid_metadata", "invalid_method", "invalid_header", "invalid_trailer", "invalid_creds_metadata",
 }
 
 // genBystander: a plain RPC that must run to completion with all its data.
@@ -106,6 +106,9 @@ func genDisturber(t *rapid.T, c *Case, kind string) RPC {
 		d.HStallRecv = true
 	case "invalid_metadata":
 		d.ReqMD = map[string][]string{rapid.SampledFrom([]string{"k-bin", "plain"}).Draw(t, "d.badkey"): {"ok", "hex:fffe"}}
+	case "invalid_creds_metadata":
+		// the bytes that cannot be encoded come from per-RPC credentials rather than from the outgoing context
+		d.Creds = &Creds{MD: map[string]string{rapid.SampledFrom([]string{"tok-bin", "tok"}).Draw(t, "d.credkey"): "hex:fffe"}}
 	case "invalid_method":
 		d.Method = encStr([]byte("/verif.Svc/Un\xffary"))
 	case "invalid_header":
